@@ -182,6 +182,7 @@ def to_bp(mod, cat, shape, val, how="ctor"):
     u = val.get("__unknown__")
     if u is not None and len(u):
         # unknown fields can only arrive from the wire
+        u = sym.wire(SymBytes.lift(u))
         m = cls().parse(bytes(m) + u) if kw else cls().parse(u)
     return m
 
@@ -277,7 +278,7 @@ def spec_encode(cat, shape, val, knobs=None):
         out = SymBytes([])
         if f.name in k.dup:
             out = out + _enc_field(cat, f, k.dup[f.name], k, force=True)
-        out = out + _enc_field(cat, f, val[f.name], k)
+        out = out + _enc_field(cat, f, val[f.name], k, force=f.name in k.dup)
         chunks.append(out)
     order = k.order if k.order is not None else range(len(chunks))
     out = SymBytes([])
@@ -303,7 +304,7 @@ def _enc_one(cat, f, x, k, kind=None):
         inner = SymBytes([]) if B(is_default(f.wraps, x)) else sw.field(1, f.wraps, x, k.pad)
         return inner
     if kind == "message":
-        return spec_encode(cat, f.msg, x, k)
+        return spec_encode(cat, f.msg, x, Knobs(pad=k.pad))  # order/dup/inject knobs apply to the top level only
     return sw.scalar_payload(kind, x)
 
 
@@ -334,7 +335,7 @@ def _enc_field(cat, f, v, k, force=False):
         for key, x in v:
             ek = SymBytes([]) if B(is_default(f.key, key)) else sw.field(1, f.key, key, pad)
             if f.kind == "message":
-                ev = sw.len_field(2, spec_encode(cat, f.msg, x, k), pad)
+                ev = sw.len_field(2, spec_encode(cat, f.msg, x, Knobs(pad=k.pad)), pad)
             elif B(is_default(f.kind, x)):
                 ev = SymBytes([])
             else:
